@@ -695,7 +695,9 @@ def check_receive(ctx, rule="T-RECV"):
     disc = {v["name"]: int(v["discr"]) if v.get("discr") is not None else i for i, v in enumerate(st["variants"])}
     text = ("field", ("field", SELF, "incoming"), "text")
     probs, n = [], 0
-    for name in ("Established", "FinWait1", "FinWait2", "CloseWait"):
+    # ... and also once the peer's FIN has been processed (CLOSING, LAST-ACK, TIME-WAIT): text accepted before the FIN and
+    # not read yet is still the application's (the pull-style receive() has no pending RECEIVE buffers it went into)
+    for name in ("Established", "FinWait1", "FinWait2", "CloseWait", "Closing", "LastAck", "TimeWait"):
         ctx.require(name in disc, "%s: State::%s not found" % (rule, name))
         d = disc[name]
         r = S.subst(t, lambda x: ("const", d) if x == ("discr", ("field", SELF, "state")) else None)
@@ -706,9 +708,9 @@ def check_receive(ctx, rule="T-RECV"):
             if not S.atoms(leaf, lambda y: y == text):
                 probs.append("in %s receive() returns %s instead of the text buffered in incoming.text: data accepted before the peer's FIN is never delivered" % (
                     name, S.term_str(leaf)[:80]))
-    ctx.require(n >= 4, "%s: receive() has no returning path for some state" % rule)
+    ctx.require(n >= 7, "%s: receive() has no returning path for some state" % rule)
     (ctx.bad if probs else ctx.ok)(rule, "%s:Tcb::receive" % rule, b.span, "; ".join(probs[:2]) if probs else
-        "receive() hands over incoming.text in ESTABLISHED, FIN-WAIT-1, FIN-WAIT-2 and CLOSE-WAIT")
+        "receive() hands over incoming.text in every synchronised state, also after the peer's FIN")
 
 
 def check_send(ctx, rule="T-SEND"):
